@@ -134,7 +134,8 @@ def oracle_single(case, out):
                 return "task %d: a waker was woken that no Pending poll had registered" % i
         bad, err = take(), take()
         if bad:
-            return "a future was polled or dropped away from its home thread, or an output was lost"
+            return ("a future was polled or dropped away from its home thread, an output was lost, or a waker that a "
+                    "handle poll had installed was never dropped (leaked reference)")
         if pos != len(out):
             return "trailing output"
     except IndexError:
